@@ -27,13 +27,6 @@ theorem mape_swap (eps : Rat) (yt yp : Mat) (hw : Option (List Rat)) (mo : MO) :
     have hn := (checkRegTargets_ok hc).1
     rw [hn, zipWith_swap_cols (fun t p => by rw [pctCol_sym_swap])]
 
-theorem mdapeCol_swap (eps : Rat) (hw : Option (List Rat)) (t p : Col) :
-    mdapeCol eps hw true p t = mdapeCol eps hw true t p := by
-  unfold mdapeCol
-  cases hw with
-  | none => simp only; rw [pctCol_sym_swap]
-  | some w => simp only; rw [pctCol_sym_swap]
-
 theorem mdape_swap (eps : Rat) (yt yp : Mat) (hw : Option (List Rat)) (mo : MO) :
     medianAbsolutePercentageError eps yp yt hw mo true = medianAbsolutePercentageError eps yt yp hw mo true := by
   unfold medianAbsolutePercentageError
@@ -42,7 +35,7 @@ theorem mdape_swap (eps : Rat) (yt yp : Mat) (hw : Option (List Rat)) (mo : MO) 
   | error e => rfl
   | ok u =>
     have hn := (checkRegTargets_ok hc).1
-    rw [hn, zipWith_swap_cols (mdapeCol_swap eps hw)]
+    rw [hn, zipWith_swap_cols (fun t p => by rw [pctCol_sym_swap])]
 
 theorem mspe_swap (eps : Rat) (yt yp : Mat) (hw : Option (List Rat)) (mo : MO) (sqrt : Bool) :
     meanSquaredPercentageError eps yp yt hw mo sqrt true = meanSquaredPercentageError eps yt yp hw mo sqrt true := by
@@ -98,11 +91,8 @@ theorem mape_sym_le (he : 0 < eps) (hn : NonnegW hw)
 theorem mdape_sym_le (he : 0 < eps)
     (h : medianAbsolutePercentageError eps yt yp hw mo true = .ok out) : ∀ q ∈ out.qs, 0 ≤ q ∧ q ≤ 2 := by
   rw [(finish_ok (mdape_iff.mp h).2.2).1]
-  refine zipWith_cols (fun t p => ?_) yt yp
-  unfold mdapeCol
-  cases hw with
-  | none => exact medianW_bounds none _ 0 2 (le_refl _) (by norm_num) (pctCol_sym_abs_bounds eps he t p)
-  | some w => exact medianW_bounds (some w) _ 0 2 (le_refl _) (by norm_num) (pctCol_sym_abs_bounds eps he p t)
+  exact zipWith_cols (fun t p =>
+    medianW_bounds hw _ 0 2 (le_refl _) (by norm_num) (pctCol_sym_abs_bounds eps he t p)) yt yp
 
 theorem mspe_sym_le (he : 0 < eps) (hn : NonnegW hw)
     (h : meanSquaredPercentageError eps yt yp hw mo sqrt true = .ok out) : ∀ q ∈ out.qs, 0 ≤ q ∧ q ≤ 4 := by
